@@ -6,7 +6,7 @@ LEVEL = "proof"
 TEXT = ("Whole-segment matching and independence of Go's map iteration order (resolve_order_independent, resolve_hit, resolve_miss), "
         "one import per resolved path (alias_memo, alias_fresh) and the quoting/dot rules are Lean theorems over the import-table model; "
         "the model is run against imports.go on alias tables with aliases that are string prefixes of each other, of referenced paths and of "
-        "standard packages, and the implementation's answers are additionally judged by an independent resolver written from the documentation. local_names_distinct / import_block_distinct / same_name_iff_same_package: in every reachable import table paths and local names are one-to-one (the hex sequence number is injective and never contains the separator). Level B: every documented spelling (alias, alias/sub-path, full path, quoted or not, ".") in every position (constructor, value, &value, struct, type, !value, decorator, function, referenced-but-unused type) over six fixture packages with identical self-identifying symbols; the import block is parsed and must list exactly the used packages.")
+        "standard packages, and the implementation's answers are additionally judged by an independent resolver written from the documentation. local_names_distinct / import_block_distinct / same_name_iff_same_package: in every reachable import table paths and local names are one-to-one (the hex sequence number is injective and never contains the separator). Level B: every documented spelling (alias, alias/sub-path, full path, quoted or not, the dot form) in every position (constructor, value, &value, struct, type, !value, decorator, function, referenced-but-unused type) over six fixture packages with identical self-identifying symbols; the import block is parsed and must list exactly the used packages.")
 TECHNIQUE = "Lean 4 theorems (permutation invariance of a first-match lookup, memoisation) + model-vs-implementation correspondence on alias/op sequences"
 LEAN_PROPS = ["C14"]
 TRUSTED = ["goimports pruning of unused imports is observed (C01), not modelled"]
